@@ -166,7 +166,7 @@ def run(tier, seed, replay=None):
         if corpus.exists():
             for f in sorted(corpus.glob("*.json")):
                 cases.append(json.loads(f.read_text())["case"])
-        n = 320 if tier == "quick" else 3000
+        n = 240 if tier == "quick" else 2400
         seeds = [(R.rng.getrandbits(64), tier, k) for k in range(n)]
         cases += npn.par_map(PID, "c08", "make_case_seeded", seeds, tag="gen")
     for c in cases:
